@@ -13,7 +13,10 @@ VARIABLES l,        \* next line to judge
           snap      \* [line, aux] of the last Commit (or InitChain): what a restart must resume from
 vars == <<l, aux, bad, snap>>
 
-InitAux == [props |-> <<>>, nextProp |-> 1, ever |-> [wrk |-> <<>>, bcn |-> <<>>], sh |-> <<>>, ghost |-> {}, ghostp |-> {}, exsig |-> {}, overcap |-> FALSE, approved |-> {}]
+InitAux == [props |-> <<>>, nextProp |-> 1, ever |-> [wrk |-> <<>>, bcn |-> <<>>], sh |-> <<>>, ghost |-> {}, ghostp |-> {}, exsig |-> {}, overcap |-> FALSE, approved |-> {}, extreme |-> FALSE, pchanged |-> {}]
+\* a behaviour whose genesis says "extreme": amounts are decimal strings far beyond what TLC's integers hold (orders of
+\* 2^62 ... 2^200 nund); only the size-independent part of C14 is judged on it (ExtremeJudge)
+IsExtreme(ev) == "g" \in DOMAIN ev.args /\ "extreme" \in DOMAIN ev.args.g /\ ev.args.g.extreme
 
 ------------------------------------------------------------------------------
 (* L2: view comparison between the expected and the observed post-state *)
@@ -61,7 +64,7 @@ DiffProps(d, ev) ==
     [] d[1] = "grants" -> {"C13"}
     [] d[1] = "fgrants" -> {"C05", "C14"}
     [] d[1] = "vest" -> {"C05"}
-    [] d[1] = "outs" -> {"C09", "C07", "C11"}
+    [] d[1] = "outs" -> (IF Len(d) >= 3 /\ d[3] = "executed" THEN {"C14"} ELSE {"C09", "C07", "C11"})
     [] OTHER -> {}
 \* chain-record diffs carry the path <<k, "ch", i, field>>
 PathProps(d, ev) == IF d[1] \in {"wrk", "bcn"} /\ d[2] = "ch" THEN (IF Len(d) >= 4 THEN ChFieldProps(d[4]) ELSE {"C09"})
@@ -97,6 +100,8 @@ StateMonitors(o) ==
   \cup (IF ~EscrowBacked(o) THEN {<<"C10", "EscrowBacked">>} ELSE {})
   \cup (IF ~o.str.inv THEN {<<"C10", "ModuleInvariant">>} ELSE {})
   \cup (IF ~Sustained(o) THEN {<<"C11", "Sustained">>} ELSE {})
+  \* the stream listing panicked (the projection then lacks the streams of accounts it cannot name)
+  \cup (IF "listPanic" \in DOMAIN o.str THEN {<<"C20", "StreamListQueryPanics">>} ELSE {})
 
   \cup (IF ~RegistryOk(o, "wrk") THEN {<<"C08", "RegistryOkWrk">>} ELSE {})
   \cup (IF ~RegistryOk(o, "bcn") THEN {<<"C08", "RegistryOkBcn">>} ELSE {})
@@ -106,6 +111,7 @@ StateMonitors(o) ==
   \cup (IF "q" \in DOMAIN o
         THEN (IF ~SupplyOfOk(o) THEN {<<"C17", "SupplyOf">>} ELSE {})
              \cup (IF ~StakeSupplyUnchanged(o) THEN {<<"C17", "OtherDenomUnchanged">>} ELSE {})
+             \cup (IF ~ForeignSupplyOfOk(o) THEN {<<"C17", "SupplyOfForeignDenomination">>} ELSE {})
              \cup (IF ~EntSupplyOk(o) THEN {<<"C17", "EnterpriseSupply">>} ELSE {})
              \cup (IF ~PagesOk(o) THEN {<<"C17", "TotalSupplyPages">>} ELSE {})
         ELSE {})
@@ -176,6 +182,18 @@ ReplicaMonitors(ev) ==
   \cup (IF ev.a = "Restart" /\ ev.res.height # Trace[snap.line].post.height
         THEN {<<"C01", "RestartHeightNotLastCommitted">>} ELSE {})
 
+\* C16 ("after a successful update every fee check, limit check, quorum tally and fee split uses the new values"): once the
+\* parameters of a module have been changed in this behaviour (aux.pchanged), a step of that module that deviates from
+\* the specification (which uses the stored parameters of the observed pre-state) is also a C16 finding
+ModulesOfStep(ev) ==
+  IF ev.a = "BeginBlock" THEN {"ent"}
+  ELSE IF ev.a # "DeliverTx" THEN {}
+  ELSE LET ms == Flatten(ev.args.msgs) IN
+       UNION { (IF ms[j].t \in {"WReg", "WRec", "WBuy"} THEN {"wrk"} ELSE {}) \cup (IF ms[j].t \in {"BReg", "BRec", "BBuy"} THEN {"bcn"} ELSE {})
+               \cup (IF ms[j].t \in {"Raise", "Decide", "Whitelist"} THEN {"ent"} ELSE {})
+               \cup (IF ms[j].t \in {"SCreate", "SClaim", "STopUp", "SRate", "SCancel"} THEN {"str"} ELSE {}) : j \in DOMAIN ms }
+ParamTag(ev) == IF ModulesOfStep(ev) \cap aux.pchanged # {} THEN {"C16"} ELSE {}
+
 Judge(i) ==
   LET ev  == Trace[i]
       pre == Trace[i - 1].post @@ [aux |-> aux]
@@ -183,7 +201,7 @@ Judge(i) ==
              ELSE IF ev.a = "ExportImport" THEN (IF ImportSucceeds(pre) THEN Ok(ImportExport(pre)) ELSE Panic(pre))
              ELSE Step(pre, ev.args)
       evm == ev.args @@ [a |-> ev.a]
-  IN UNION { Tag(i, "L2", (IF ev.a = "Restart" THEN {"C01"} ELSE IF ev.a = "ExportImport" THEN {"C15"} \cup PathProps(d, ev) \cup ImportAliasProps(d) \cup ImportEntitlementProps(d) ELSE PathProps(d, ev)), d)
+  IN UNION { Tag(i, "L2", (IF ev.a = "Restart" THEN {"C01"} ELSE IF ev.a = "ExportImport" THEN {"C15"} \cup PathProps(d, ev) \cup ImportAliasProps(d) \cup ImportEntitlementProps(d) ELSE PathProps(d, ev) \cup ParamTag(ev)), d)
                : d \in (IF ev.a = "ExportImport" /\ ~ev.res.ok THEN {} ELSE StateDiff(exp.st, ev.post)) }
      \cup (IF ev.a = "ExportImport"
            THEN (IF ~ev.res.exportOk THEN {<<i, "L1", "C15", "ExportFailed">>} ELSE {})
@@ -200,7 +218,7 @@ Judge(i) ==
      \cup { <<i, "L1", m[1], m[2]>> : m \in ReplicaMonitors(ev) }
      \cup (IF exp.ok # ev.res.ok THEN {<<i, "L2", "note", <<"res.ok", exp.ok>> >>} ELSE {})
      \cup (IF exp.ok /\ ev.res.ok /\ ev.a = "DeliverTx"
-           THEN UNION { Tag(i, "L2", PathProps(d, ev), d) : d \in OutDiff(exp.out, ev.res.outs) } ELSE {})
+           THEN UNION { Tag(i, "L2", PathProps(d, ev) \cup ParamTag(ev), d) : d \in OutDiff(exp.out, ev.res.outs) } ELSE {})
      \cup { <<i, "L1", m[1], m[2]>> : m \in StateMonitors(ev.post) }
      \cup (IF ev.a \in {"Restart", "ExportImport"} THEN {}    \* not a transition of the chain
            ELSE { <<i, "L1", m[1], m[2]>> : m \in StepMonitors(Trace[i - 1].post, ev.post, evm) })
@@ -225,6 +243,7 @@ Judge(i) ==
      \cup (IF ev.a = "CheckTx" /\ ~ev.res.ok /\ AdmitIdeal(pre, ev.args) /\ HasRegistryOps(ev.args.msgs)
            THEN {<<i, "L2", "note", <<"checktx-refused-exact-fee", FALSE>> >>} ELSE {})
      \cup (IF UnentitledAccepted(pre, evm, ev.res.ok) THEN {<<i, "L1", "C13", "UnentitledMessageAccepted">>} ELSE {})
+     \cup (IF UnentitledGroupExec(pre, evm, ev.res) THEN {<<i, "L1", "C13", "UnentitledGroupProposalExecuted">>} ELSE {})
      \cup (IF HasStreamMsg(evm) /\ exp.ok /\ ~ev.res.ok THEN {<<i, "L1", "C12", "StreamOperationRefused">>} ELSE {})
      \cup (IF HasStreamMsg(evm) /\ ev.res.panic THEN {<<i, "L1", "C12", "StreamOperationPanicked">>} ELSE {})
 
@@ -241,6 +260,16 @@ Explain(i) ==
   ELSE TRUE
 
 \* a step in which a begin/end blocker or commit panicked leaves no meaningful state: only the halt itself is reported
+\* extreme amounts: no begin / end blocker or commit panics (the chain keeps producing blocks), a failed transaction leaves
+\* every module store byte-identical (but for the eFUND unlock of the pre-execution stage), read-only calls change none
+ExtremeJudge(i) ==
+  LET ev == Trace[i]
+      evm == ev.args @@ [a |-> ev.a]
+  IN (IF ev.post.halted \/ (ev.a \in {"BeginBlock", "EndBlock", "Commit"} /\ ev.res.panic) THEN {<<i, "L1", "C14", "HaltedOnExtremeAmounts">>} ELSE {})
+     \cup (IF ~FailedTxKeepsStores(Trace[i - 1].post, ev.post, evm, ev.res.ok) THEN {<<i, "L1", "C14", "FailedTxChangedAModuleStore">>} ELSE {})
+     \cup (IF ~ReadOnlyKeepsStores(Trace[i - 1].post, ev.post, evm) THEN {<<i, "L1", "C14", "ReadOnlyCallChangedAModuleStore">>} ELSE {})
+     \cup (IF ev.a = "ExportImport" /\ (~ev.res.exportOk \/ ev.res.importPanic) THEN {<<i, "L1", "C15", "ExportImportFailsOnExtremeAmounts">>} ELSE {})
+
 JudgeOrHalt(i) ==
   IF ~Wf(Trace[i - 1].post) \/ ~Wf(Trace[i].post)
   THEN \* the ids of the observed state are inconsistent: only the state monitors speak (they report it), the step is not judged
@@ -259,9 +288,12 @@ TraceNext ==
   /\ l' = l + 1
   /\ Explain(l)
   /\ IF IsReset(Trace[l])
-     THEN /\ aux' = InitAux
-          /\ snap' = [line |-> l, aux |-> InitAux]
+     THEN /\ aux' = [InitAux EXCEPT !.extreme = IsExtreme(Trace[l])]
+          /\ snap' = [line |-> l, aux |-> aux']
           /\ bad' = bad \cup { <<l, "L1", m[1], m[2]>> : m \in StateMonitors(Trace[l].post) }
+     ELSE IF aux.extreme
+     THEN /\ UNCHANGED <<aux, snap>>
+          /\ bad' = bad \cup ExtremeJudge(l)
      ELSE IF IsAdopt(Trace[l])
      THEN /\ aux' = AdoptAux(Trace[l].post)
           /\ snap' = [line |-> l, aux |-> aux']
@@ -271,7 +303,8 @@ TraceNext ==
                     \* an export that crossed the 20,000-record cap legitimately loses the older records: from then on
                     \* the re-imported chain is no longer compared with the original one record by record
                     ELSE IF Trace[l].a = "ExportImport" THEN [aux EXCEPT !.overcap = @ \/ ~WithinCap(Trace[l - 1].post)]
-                    ELSE Step(Trace[l - 1].post @@ [aux |-> aux], Trace[l].args).st.aux
+                    ELSE [Step(Trace[l - 1].post @@ [aux |-> aux], Trace[l].args).st.aux EXCEPT
+                             !.pchanged = @ \cup { k \in {"ent", "wrk", "bcn", "str"} : Trace[l].post[k].p # Trace[l - 1].post[k].p }]
           /\ snap' = IF Trace[l].a = "Commit" THEN [line |-> l, aux |-> aux'] ELSE snap
           /\ bad' = bad \cup JudgeOrHalt(l)
 
